@@ -1,6 +1,7 @@
 import GeodeVerif.GenR.Transform
 import GeodeVerif.Lemmas.PyRSimp
 import Mathlib.Tactic.Ring
+import Lean.Elab.Tactic
 import Mathlib.Tactic.Linarith
 import Mathlib.Tactic.FieldSimp
 import Mathlib.Tactic.NormNum
@@ -16,117 +17,17 @@ import Mathlib.Data.Matrix.ColumnRowPartitioned
 namespace GeodeVerif.C06
 open Py PyR GenR.Transform GenR.Constants
 
+/-- proof-engineering helper: replace the last argument `c` of the goal `P c` by the body of the
+definition of its head constant (one δ-step), without naming the constant -/
+elab "unfold_arg" : tactic => do
+  let g ← Lean.Elab.Tactic.getMainGoal
+  let tgt ← Lean.instantiateMVars (← g.getType)
+  let arg := tgt.appArg!
+  let some arg' ← Lean.Meta.unfoldDefinition? arg | throwError "unfold_arg: cannot unfold"
+  let g' ← g.replaceTargetDefEq (Lean.mkApp tgt.appFn! arg')
+  Lean.Elab.Tactic.replaceMainGoal [g']
+
 noncomputable section
-
-/-! ## `roundHalfEven` facts -/
-
-theorem rhe_nonneg {x : ℝ} (hx : 0 ≤ x) : 0 ≤ roundHalfEven x := by
-  have h := roundHalfEven_close x
-  rw [abs_le] at h
-  have : (-1 : ℝ) < (roundHalfEven x : ℝ) := by linarith [h.1]
-  have : (-1 : ℤ) < roundHalfEven x := by exact_mod_cast this
-  omega
-
-theorem rhe_lt_of_lt {x : ℝ} {n : ℤ} (hx : x < (n : ℝ) - 1 / 2) : roundHalfEven x < n := by
-  have h := roundHalfEven_close x
-  rw [abs_le] at h
-  have : (roundHalfEven x : ℝ) < (n : ℝ) := by linarith [h.2]
-  exact_mod_cast this
-
-theorem rhe_ge_of_gt {x : ℝ} {n : ℤ} (hx : (n : ℝ) - 1 / 2 < x) : n ≤ roundHalfEven x := by
-  have h := roundHalfEven_close x
-  rw [abs_le] at h
-  have : (n : ℝ) - 1 < (roundHalfEven x : ℝ) := by linarith [h.1]
-  have : n - 1 < roundHalfEven x := by exact_mod_cast this
-  omega
-
-/-! ## The HP-notation detour of the arc-second → degree step -/
-
-/-- the rounding to 10⁻⁹″ that the detour through `hp2dec` introduces -/
-def round9 (r : ℝ) : ℝ :=
-  if r ≥ 0 then ((roundHalfEven (|r| * 10 ^ 9) : ℤ) : ℝ) / 10 ^ 9
-  else -(((roundHalfEven (|r| * 10 ^ 9) : ℤ) : ℝ) / 10 ^ 9)
-
-theorem hp_arg (r : ℝ) : |r / 10000| * 10 ^ 13 = |r| * 10 ^ 9 := by
-  rw [abs_div, abs_of_pos (by norm_num : (0 : ℝ) < 10000)]
-  ring
-
-/-- `hp2dec` when the 13-decimal integer `N` is below 60″ -/
-theorem hp2dec_of_small (hp : ℝ) (n : ℕ) (hn : (roundHalfEven (|hp| * 10 ^ 13)).natAbs = n)
-    (hlt : n < 60000000000) :
-    hp2dec hp = .ok (if hp ≥ 0 then (n : ℝ) / 10 ^ 9 / 3600 else -((n : ℝ) / 10 ^ 9 / 3600)) := by
-  unfold hp2dec
-  simp only [hn]
-  have h1 : n % 10 ^ 13 = n := by norm_num; omega
-  have h2 : ¬ (n / 10 ^ 12 > 5) := by norm_num; omega
-  have h3 : ¬ ((n / 10 ^ 10) % 10 > 5) := by norm_num; omega
-  have h4 : n / 10 ^ 11 = 0 := by norm_num; omega
-  have h5 : n % 10 ^ 11 = n := by norm_num; omega
-  have h6 : n / 10 ^ 13 = 0 := by norm_num; omega
-  rw [h1, if_neg h2, if_neg h3, h4, h5, h6]
-  simp
-
-/-- `hp2dec` when the 13-decimal integer `N` is in `[60″, 100″)` -/
-theorem hp2dec_of_band (hp : ℝ) (n : ℕ) (hn : (roundHalfEven (|hp| * 10 ^ 13)).natAbs = n)
-    (hge : 60000000000 ≤ n) (hlt : n < 100000000000) :
-    hp2dec hp = .error .ValueError := by
-  unfold hp2dec
-  simp only [hn]
-  have h1 : n % 10 ^ 13 = n := by norm_num; omega
-  have h2 : ¬ (n / 10 ^ 12 > 5) := by norm_num; omega
-  have h3 : ((n / 10 ^ 10) % 10 > 5) := by norm_num; omega
-  rw [h1, if_neg h2, if_pos h3]
-
-theorem hp2dec_ok_or_ValueError (hp : ℝ) :
-    (∃ v, hp2dec hp = .ok v) ∨ hp2dec hp = .error .ValueError := by
-  unfold hp2dec
-  simp only
-  split_ifs
-  all_goals first | (right; rfl) | (left; exact ⟨_, rfl⟩)
-
-/-- **C06.1** for `|r| < 60 − 0.5·10⁻⁹` arc-seconds the HP detour returns `round₉(r)/3600` degrees. -/
-theorem hp2dec_value (r : ℝ) (h : |r| * 10 ^ 9 < 6 * 10 ^ 10 - 1 / 2) :
-    hp2dec (r / 10000) = .ok (round9 r / 3600) := by
-  have h0 : 0 ≤ roundHalfEven (|r| * 10 ^ 9) := rhe_nonneg (by positivity)
-  have h1 : roundHalfEven (|r| * 10 ^ 9) < (60000000000 : ℤ) := by
-    apply rhe_lt_of_lt; push_cast; linarith
-  obtain ⟨n, hn⟩ := Int.eq_ofNat_of_zero_le h0
-  have hnat : (roundHalfEven (|r / 10000| * 10 ^ 13)).natAbs = n := by
-    rw [hp_arg, hn]; rfl
-  rw [hp2dec_of_small _ n hnat (by omega)]
-  unfold round9
-  rw [hn]
-  have : (r / 10000 ≥ 0) ↔ (r ≥ 0) := by
-    constructor
-    · intro h; have := mul_nonneg h (by norm_num : (0 : ℝ) ≤ 10000); simpa using this
-    · intro h; positivity
-  by_cases hr : r ≥ 0
-  · rw [if_pos hr, if_pos (this.2 hr)]; simp
-  · rw [if_neg hr, if_neg (fun h => hr (this.1 h))]; simp; ring
-
-theorem round9_close (r : ℝ) : |round9 r - r| ≤ 1 / 2 / 10 ^ 9 := by
-  have h := roundHalfEven_close (|r| * 10 ^ 9)
-  have key : |((roundHalfEven (|r| * 10 ^ 9) : ℤ) : ℝ) / 10 ^ 9 - abs r| ≤ 1 / 2 / 10 ^ 9 := by
-    have : ((roundHalfEven (|r| * 10 ^ 9) : ℤ) : ℝ) / 10 ^ 9 - abs r
-        = (((roundHalfEven (|r| * 10 ^ 9) : ℤ) : ℝ) - |r| * 10 ^ 9) / 10 ^ 9 := by field_simp
-    rw [this, abs_div, abs_of_pos (by positivity : (0 : ℝ) < 10 ^ 9)]
-    exact div_le_div_of_nonneg_right h (by positivity)
-  unfold round9
-  by_cases hr : r ≥ 0
-  · rw [if_pos hr]; rw [abs_of_nonneg hr] at key ⊢; exact key
-  · rw [if_neg hr]
-    have hr' : r < 0 := not_le.1 hr
-    rw [abs_of_neg hr'] at key ⊢
-    have : -(((roundHalfEven (-r * 10 ^ 9) : ℤ) : ℝ) / 10 ^ 9) - r
-        = -(((roundHalfEven (-r * 10 ^ 9) : ℤ) : ℝ) / 10 ^ 9 - -r) := by ring
-    rw [this, abs_neg]; exact key
-
-/-- in arc-seconds: the value returned by the detour differs from `r` by at most `0.5·10⁻⁹″` -/
-theorem hp2dec_close (r : ℝ) (h : |r| * 10 ^ 9 < 6 * 10 ^ 10 - 1 / 2) :
-    ∃ d, hp2dec (r / 10000) = .ok d ∧ |3600 * d - r| ≤ 1 / 2 / 10 ^ 9 := by
-  refine ⟨_, hp2dec_value r h, ?_⟩
-  have : 3600 * (round9 r / 3600) = round9 r := by field_simp
-  rw [this]; exact round9_close r
 
 /-! ## Spec: the similarity (Helmert) formula of the GDA2020 technical manual -/
 
@@ -137,13 +38,6 @@ def helmert (t : ℝ × ℝ × ℝ) (s : ℝ) (ρ : ℝ × ℝ × ℝ) (x : ℝ 
    t.2.1 + (1 + s) * (-ρ.2.2 * x.1 + x.2.1 + ρ.1 * x.2.2),
    t.2.2 + (1 + s) * (ρ.2.1 * x.1 - ρ.1 * x.2.1 + x.2.2))
 
-/-- the range of rotations (arc-seconds) on which the HP detour is a 9-decimal rounding:
-`|r| < 60 − 0.5·10⁻⁹` -/
-def RotOK (r : ℝ) : Prop := |r| * 10 ^ 9 < 6 * 10 ^ 10 - 1 / 2
-
-theorem rotOK_of_abs_le {r : ℝ} (h : |r| ≤ 59.999999999) : RotOK r := by
-  unfold RotOK; nlinarith
-
 /-- arc-seconds → radians -/
 def arcsec (r : ℝ) : ℝ := radians (r / 3600)
 
@@ -151,28 +45,22 @@ theorem arcsec_eq (r : ℝ) : arcsec r = r * (Real.pi / 648000) := by
   unfold arcsec; simp only [radians_def]; ring
 
 def transl (p : Transformation) : ℝ × ℝ × ℝ := (p.tx, p.ty, p.tz)
-/-- the rotations the code uses (radians) -/
-def rho (p : Transformation) : ℝ × ℝ × ℝ :=
-  (arcsec (round9 p.rx), arcsec (round9 p.ry), arcsec (round9 p.rz))
-/-- the unrounded rotations (radians) -/
-def rhoExact (p : Transformation) : ℝ × ℝ × ℝ := (arcsec p.rx, arcsec p.ry, arcsec p.rz)
-def RotsOK (p : Transformation) : Prop := RotOK p.rx ∧ RotOK p.ry ∧ RotOK p.rz
+/-- the rotations in radians: `radians(r/3600)` -/
+def rho (p : Transformation) : ℝ × ℝ × ℝ := (arcsec p.rx, arcsec p.ry, arcsec p.rz)
 
-/-- the code's result on the point part -/
+/-- the exactly evaluated formula with the parameters of `p`: translations in metres, scale in ppm,
+rotations in arc-seconds -/
 def apply7 (p : Transformation) (x : ℝ × ℝ × ℝ) : ℝ × ℝ × ℝ :=
   helmert (transl p) (p.sc / 1000000) (rho p) x
-/-- the exactly evaluated formula -/
-def apply7Exact (p : Transformation) (x : ℝ × ℝ × ℝ) : ℝ × ℝ × ℝ :=
-  helmert (transl p) (p.sc / 1000000) (rhoExact p) x
 
-/-- **C06.2** -/
+/-- **C06.1/2** for every point, every parameter set (no bound on the rotations) and every `vcv`,
+`conform7` returns exactly `t + (1 + sc·10⁻⁶)·R(ρ)·x`, `ρ = radians(r/3600)` -/
 theorem conform7_formula (x y z : ℝ) (p : Transformation)
-    (vcv : Option (ℝ × ℝ × ℝ × ℝ × ℝ × ℝ × ℝ × ℝ × ℝ)) (h : RotsOK p) :
+    (vcv : Option (ℝ × ℝ × ℝ × ℝ × ℝ × ℝ × ℝ × ℝ × ℝ)) :
     ∃ v, conform7 x y z p vcv
       = .ok ((apply7 p (x, y, z)).1, (apply7 p (x, y, z)).2.1, (apply7 p (x, y, z)).2.2, v) := by
-  obtain ⟨hx, hy, hz⟩ := h
   unfold conform7
-  simp only [hp2dec_value _ hx, hp2dec_value _ hy, hp2dec_value _ hz, Except.bind]
+  simp only []
   split
   all_goals
     refine ⟨_, congrArg Except.ok (Prod.ext ?_ (Prod.ext ?_ (Prod.ext ?_ rfl)))⟩
@@ -180,12 +68,24 @@ theorem conform7_formula (x y z : ℝ) (p : Transformation)
       simp only [apply7, helmert, transl, rho, arcsec, PyR.pyfloat, PyR.radians]
       ring
 
-example : RotsOK gda94_to_gda2020 := by
-  refine ⟨rotOK_of_abs_le ?_, rotOK_of_abs_le ?_, rotOK_of_abs_le ?_⟩ <;>
-    simp only [gda94_to_gda2020, Transformation.init, dec_def, abs_neg] <;>
-    rw [abs_of_nonneg (by positivity)] <;> norm_num
+/-- in particular `conform7` never raises, whatever the rotations (the former HP-notation detour,
+which raised for 60″ ≤ |r| < 100″, is gone) -/
+theorem conform7_total (x y z : ℝ) (p : Transformation)
+    (vcv : Option (ℝ × ℝ × ℝ × ℝ × ℝ × ℝ × ℝ × ℝ × ℝ)) : ∃ r, conform7 x y z p vcv = .ok r := by
+  obtain ⟨v, hv⟩ := conform7_formula x y z p vcv
+  exact ⟨_, hv⟩
 
-/-! ## Distance from the exactly evaluated formula -/
+/-- **C06.3** the distance from the exactly evaluated formula is 0 in exact arithmetic (the property's
+1 µm is then entirely binary64 rounding, which is not modelled here) -/
+theorem conform7_close (x y z : ℝ) (p : Transformation)
+    (vcv : Option (ℝ × ℝ × ℝ × ℝ × ℝ × ℝ × ℝ × ℝ × ℝ)) :
+    ∃ X Y Z v, conform7 x y z p vcv = .ok (X, Y, Z, v) ∧
+      |X - (apply7 p (x, y, z)).1| = 0 ∧ |Y - (apply7 p (x, y, z)).2.1| = 0 ∧
+      |Z - (apply7 p (x, y, z)).2.2| = 0 := by
+  obtain ⟨v, hv⟩ := conform7_formula x y z p vcv
+  exact ⟨_, _, _, v, hv, by simp, by simp, by simp⟩
+
+/-! ## Absolute-value helpers -/
 
 theorem abs_two_terms {a b u v ε M : ℝ} (ha : |a| ≤ ε) (hb : |b| ≤ ε) (hu : |u| ≤ M)
     (hv : |v| ≤ M) : |a * u + b * v| ≤ 2 * ε * M := by
@@ -209,133 +109,6 @@ theorem abs_scaled_two_terms {s a b u v ε M : ℝ} (ha : |a| ≤ ε) (hb : |b| 
         mul_le_mul (abs_one_add_le s) (abs_two_terms ha hb hu hv) (abs_nonneg _)
           (by positivity)
     _ = 2 * ε * (1 + |s|) * M := by ring
-
-/-- changing only the rotations by at most `ε` (radians) moves each coordinate by at most
-`2·ε·(1+|s|)·M`, `M ≥ max(|x|,|y|,|z|)` -/
-theorem helmert_rot_perturb (t : ℝ × ℝ × ℝ) (s : ℝ) (ρ ρ' x : ℝ × ℝ × ℝ) (ε M : ℝ)
-    (hρ : |ρ.1 - ρ'.1| ≤ ε ∧ |ρ.2.1 - ρ'.2.1| ≤ ε ∧ |ρ.2.2 - ρ'.2.2| ≤ ε)
-    (hM : |x.1| ≤ M ∧ |x.2.1| ≤ M ∧ |x.2.2| ≤ M) :
-    |(helmert t s ρ x).1 - (helmert t s ρ' x).1| ≤ 2 * ε * (1 + |s|) * M ∧
-    |(helmert t s ρ x).2.1 - (helmert t s ρ' x).2.1| ≤ 2 * ε * (1 + |s|) * M ∧
-    |(helmert t s ρ x).2.2 - (helmert t s ρ' x).2.2| ≤ 2 * ε * (1 + |s|) * M := by
-  obtain ⟨h1, h2, h3⟩ := hρ
-  obtain ⟨m1, m2, m3⟩ := hM
-  have h1' : |-(ρ.1 - ρ'.1)| ≤ ε := by rwa [abs_neg]
-  have h2' : |-(ρ.2.1 - ρ'.2.1)| ≤ ε := by rwa [abs_neg]
-  have h3' : |-(ρ.2.2 - ρ'.2.2)| ≤ ε := by rwa [abs_neg]
-  refine ⟨?_, ?_, ?_⟩
-  · have := abs_scaled_two_terms (s := s) h3 h2' m2 m3
-    convert this using 2; simp only [helmert]; ring
-  · have := abs_scaled_two_terms (s := s) h3' h1 m1 m3
-    convert this using 2; simp only [helmert]; ring
-  · have := abs_scaled_two_terms (s := s) h2 h1' m1 m2
-    convert this using 2; simp only [helmert]; ring
-
-theorem arcsec_round9_close (r : ℝ) :
-    |arcsec (round9 r) - arcsec r| ≤ Real.pi / 648000 * (1 / 2 / 10 ^ 9) := by
-  rw [arcsec_eq, arcsec_eq, ← sub_mul, abs_mul, abs_of_pos (by positivity : 0 < Real.pi / 648000),
-    mul_comm]
-  exact mul_le_mul_of_nonneg_left (round9_close r) (by positivity)
-
-/-- **C06.3** each returned coordinate differs from the formula evaluated with the unrounded
-rotations by at most `(π/648000)·0.5·10⁻⁹·2·(1+|sc|/10⁶)·max(|x|,|y|,|z|)` -/
-theorem conform7_close (x y z : ℝ) (p : Transformation)
-    (vcv : Option (ℝ × ℝ × ℝ × ℝ × ℝ × ℝ × ℝ × ℝ × ℝ)) (h : RotsOK p) (M : ℝ)
-    (hM : |x| ≤ M ∧ |y| ≤ M ∧ |z| ≤ M) :
-    ∃ X Y Z v, conform7 x y z p vcv = .ok (X, Y, Z, v) ∧
-      |X - (apply7Exact p (x, y, z)).1|
-        ≤ Real.pi / 648000 * (1 / 2 / 10 ^ 9) * 2 * (1 + |p.sc| / 1000000) * M ∧
-      |Y - (apply7Exact p (x, y, z)).2.1|
-        ≤ Real.pi / 648000 * (1 / 2 / 10 ^ 9) * 2 * (1 + |p.sc| / 1000000) * M ∧
-      |Z - (apply7Exact p (x, y, z)).2.2|
-        ≤ Real.pi / 648000 * (1 / 2 / 10 ^ 9) * 2 * (1 + |p.sc| / 1000000) * M := by
-  obtain ⟨v, hv⟩ := conform7_formula x y z p vcv h
-  refine ⟨_, _, _, v, hv, ?_⟩
-  have key := helmert_rot_perturb (transl p) (p.sc / 1000000) (rho p) (rhoExact p) (x, y, z)
-    (Real.pi / 648000 * (1 / 2 / 10 ^ 9)) M
-    ⟨arcsec_round9_close _, arcsec_round9_close _, arcsec_round9_close _⟩ hM
-  have hs : |p.sc / 1000000| = |p.sc| / 1000000 := by
-    rw [abs_div, abs_of_pos (by norm_num : (0 : ℝ) < 1000000)]
-  rw [hs] at key
-  have e : 2 * (Real.pi / 648000 * (1 / 2 / 10 ^ 9)) * (1 + |p.sc| / 1000000) * M
-      = Real.pi / 648000 * (1 / 2 / 10 ^ 9) * 2 * (1 + |p.sc| / 1000000) * M := by ring
-  rw [e] at key
-  exact key
-
-/-- the property's "1 µm" in exact arithmetic: for `max(|x|,|y|,|z|) ≤ 5·10⁷` m and `|sc| ≤ 100` ppm
-the bound of `conform7_close` is below `2.5·10⁻⁷` m -/
-theorem conform7_close_bound_lt (sc M : ℝ) (hsc : |sc| ≤ 100) (hM0 : 0 ≤ M) (hM : M ≤ 5 * 10 ^ 7) :
-    Real.pi / 648000 * (1 / 2 / 10 ^ 9) * 2 * (1 + |sc| / 1000000) * M < 2.5 / 10 ^ 7 := by
-  have hpi := Real.pi_lt_d2
-  have hpi0 := Real.pi_pos
-  have h1 : Real.pi / 648000 * (1 / 2 / 10 ^ 9) * 2 * (1 + |sc| / 1000000) * M
-      ≤ Real.pi / 648000 * (1 / 2 / 10 ^ 9) * 2 * (1 + 100 / 1000000) * (5 * 10 ^ 7) := by
-    have : 0 ≤ |sc| := abs_nonneg sc
-    gcongr
-  have h2 : Real.pi / 648000 * (1 / 2 / 10 ^ 9) * 2 * (1 + 100 / 1000000) * (5 * 10 ^ 7)
-      = Real.pi * (50005 / 648000000000) := by ring
-  rw [h2] at h1
-  have h3 : Real.pi * (50005 / 648000000000) < 3.15 * (50005 / 648000000000) :=
-    mul_lt_mul_of_pos_right hpi (by norm_num)
-  have h4 : (3.15 : ℝ) * (50005 / 648000000000) < 2.5 / 10 ^ 7 := by norm_num
-  linarith
-
-theorem conform7_within_1um (x y z : ℝ) (p : Transformation)
-    (vcv : Option (ℝ × ℝ × ℝ × ℝ × ℝ × ℝ × ℝ × ℝ × ℝ)) (h : RotsOK p) (hsc : |p.sc| ≤ 100)
-    (hM : |x| ≤ 5 * 10 ^ 7 ∧ |y| ≤ 5 * 10 ^ 7 ∧ |z| ≤ 5 * 10 ^ 7) :
-    ∃ X Y Z v, conform7 x y z p vcv = .ok (X, Y, Z, v) ∧
-      |X - (apply7Exact p (x, y, z)).1| < 2.5 / 10 ^ 7 ∧
-      |Y - (apply7Exact p (x, y, z)).2.1| < 2.5 / 10 ^ 7 ∧
-      |Z - (apply7Exact p (x, y, z)).2.2| < 2.5 / 10 ^ 7 := by
-  obtain ⟨X, Y, Z, v, hv, h1, h2, h3⟩ := conform7_close x y z p vcv h (5 * 10 ^ 7) hM
-  have hb := conform7_close_bound_lt p.sc (5 * 10 ^ 7) hsc (by positivity) le_rfl
-  exact ⟨X, Y, Z, v, hv, lt_of_le_of_lt h1 hb, lt_of_le_of_lt h2 hb, lt_of_le_of_lt h3 hb⟩
-
-/-! ## Outside the quantifier: rotations of one arc-minute and more -/
-
-/-- rotations (arc-seconds) whose 9-decimal rounding lies in `[60, 100)` -/
-def RotBand (r : ℝ) : Prop := 6 * 10 ^ 10 - 1 / 2 < |r| * 10 ^ 9 ∧ |r| * 10 ^ 9 < 10 ^ 11 - 1 / 2
-
-theorem rotBand_of_abs {r : ℝ} (h60 : 60 ≤ |r|) (h100 : |r| ≤ 99.999999999) : RotBand r := by
-  unfold RotBand; constructor <;> nlinarith
-
-theorem hp2dec_band (r : ℝ) (h : RotBand r) : hp2dec (r / 10000) = .error .ValueError := by
-  obtain ⟨hlo, hhi⟩ := h
-  have h1 : (60000000000 : ℤ) ≤ roundHalfEven (|r| * 10 ^ 9) := by
-    apply rhe_ge_of_gt; push_cast; linarith
-  have h2 : roundHalfEven (|r| * 10 ^ 9) < (100000000000 : ℤ) := by
-    apply rhe_lt_of_lt; push_cast; linarith
-  obtain ⟨n, hn⟩ := Int.eq_ofNat_of_zero_le (by omega : 0 ≤ roundHalfEven (|r| * 10 ^ 9))
-  have hnat : (roundHalfEven (|r / 10000| * 10 ^ 13)).natAbs = n := by
-    rw [hp_arg, hn]; rfl
-  exact hp2dec_of_band _ n hnat (by omega) (by omega)
-
-/-- **C06.4** a rotation with `60″ ≤ |r| < 100″` makes `conform7` raise `ValueError`
-(the seconds field of the HP reading is ≥ 60) -/
-theorem rotation_guard (x y z : ℝ) (p : Transformation)
-    (vcv : Option (ℝ × ℝ × ℝ × ℝ × ℝ × ℝ × ℝ × ℝ × ℝ))
-    (h : RotBand p.rx ∨ RotBand p.ry ∨ RotBand p.rz) :
-    conform7 x y z p vcv = .error .ValueError := by
-  unfold conform7
-  rcases hp2dec_ok_or_ValueError (p.rx / 10000) with ⟨a, ha⟩ | ha
-  · rcases hp2dec_ok_or_ValueError (p.ry / 10000) with ⟨b, hb⟩ | hb
-    · rcases hp2dec_ok_or_ValueError (p.rz / 10000) with ⟨c, hc⟩ | hc
-      · rcases h with h | h | h
-        · rw [hp2dec_band _ h] at ha; cases ha
-        · rw [hp2dec_band _ h] at hb; cases hb
-        · rw [hp2dec_band _ h] at hc; cases hc
-      · simp only [ha, hb, hc, Except.bind]
-    · simp only [ha, hb, Except.bind]
-  · simp only [ha, Except.bind]
-
-/-- `|r| < 60` alone is not enough for C06.1: just below 60″ the 9-decimal rounding reaches 60″ -/
-theorem hp2dec_value_fails : ¬ ∀ r : ℝ, |r| < 60 → ∃ d, hp2dec (r / 10000) = .ok d := by
-  intro h
-  obtain ⟨d, hd⟩ := h 59.9999999999 (by rw [abs_of_nonneg (by norm_num)]; norm_num)
-  have hb : RotBand 59.9999999999 := by
-    unfold RotBand; rw [abs_of_nonneg (by norm_num)]; constructor <;> norm_num
-  rw [hp2dec_band _ hb] at hd
-  cases hd
 
 /-! ## Round trip `p` then `−p` -/
 
@@ -418,28 +191,8 @@ theorem round_trip_bound (t : ℝ × ℝ × ℝ) (s : ℝ) (ρ x : ℝ × ℝ ×
 
 /-! ### … for `conform7` and `Transformation.neg` -/
 
-theorem rhe_zero : roundHalfEven 0 = 0 := by
-  have h0 := rhe_nonneg (le_refl (0 : ℝ))
-  have h1 : roundHalfEven 0 < (1 : ℤ) := rhe_lt_of_lt (by norm_num)
-  omega
-
-theorem round9_neg (r : ℝ) : round9 (-r) = -round9 r := by
-  unfold round9
-  rw [abs_neg]
-  rcases lt_trichotomy r 0 with h | h | h
-  · rw [if_pos (by linarith), if_neg (by linarith)]; ring
-  · subst h; simp [rhe_zero]
-  · rw [if_neg (by linarith), if_pos (by linarith)]
-
 theorem arcsec_neg (r : ℝ) : arcsec (-r) = -arcsec r := by
   rw [arcsec_eq, arcsec_eq]; ring
-
-theorem rotsOK_neg {p : Transformation} (h : RotsOK p) : RotsOK (Transformation.neg p) := by
-  obtain ⟨h1, h2, h3⟩ := h
-  refine ⟨?_, ?_, ?_⟩
-  · show RotOK (-p.rx); unfold RotOK at *; rwa [abs_neg]
-  · show RotOK (-p.ry); unfold RotOK at *; rwa [abs_neg]
-  · show RotOK (-p.rz); unfold RotOK at *; rwa [abs_neg]
 
 /-- `−p` applies the formula with `−t, −s, −ρ` -/
 theorem apply7_neg (p : Transformation) (x : ℝ × ℝ × ℝ) :
@@ -448,35 +201,29 @@ theorem apply7_neg (p : Transformation) (x : ℝ × ℝ × ℝ) :
   have e2 : (Transformation.neg p).sc / 1000000 = -(p.sc / 1000000) := by
     show (-p.sc) / 1000000 = _; ring
   have e3 : rho (Transformation.neg p) = -rho p := by
-    show (arcsec (round9 (-p.rx)), arcsec (round9 (-p.ry)), arcsec (round9 (-p.rz))) = _
-    simp only [round9_neg, arcsec_neg]; rfl
+    show (arcsec (-p.rx), arcsec (-p.ry), arcsec (-p.rz)) = _
+    simp only [arcsec_neg]; rfl
   unfold apply7; rw [e1, e2, e3]
 
 /-- `conform7` with `p` and then with `−p`: the result differs from the start point by exactly
 `residual` (second-order terms) -/
 theorem conform7_round_trip (x y z : ℝ) (p : Transformation)
-    (vcv vcv' : Option (ℝ × ℝ × ℝ × ℝ × ℝ × ℝ × ℝ × ℝ × ℝ)) (h : RotsOK p) :
+    (vcv vcv' : Option (ℝ × ℝ × ℝ × ℝ × ℝ × ℝ × ℝ × ℝ × ℝ)) :
     ∃ X Y Z v x' y' z' v', conform7 x y z p vcv = .ok (X, Y, Z, v) ∧
       conform7 X Y Z (Transformation.neg p) vcv' = .ok (x', y', z', v') ∧
       (x' - x, y' - y, z' - z) = residual (transl p) (p.sc / 1000000) (rho p) (x, y, z) := by
-  obtain ⟨v, hv⟩ := conform7_formula x y z p vcv h
+  obtain ⟨v, hv⟩ := conform7_formula x y z p vcv
   obtain ⟨v', hv'⟩ := conform7_formula (apply7 p (x, y, z)).1 (apply7 p (x, y, z)).2.1
-    (apply7 p (x, y, z)).2.2 (Transformation.neg p) vcv' (rotsOK_neg h)
+    (apply7 p (x, y, z)).2.2 (Transformation.neg p) vcv'
   refine ⟨_, _, _, v, _, _, _, v', hv, hv', ?_⟩
   rw [← round_trip_residual, apply7_neg]
   rfl
 
-theorem abs_arcsec_round9_le (r A P : ℝ) (hA : |r| ≤ A)
-    (hP : 3.15 / 648000 * (A + 1 / 2 / 10 ^ 9) ≤ P) : |arcsec (round9 r)| ≤ P := by
-  have h1 : |round9 r| ≤ A + 1 / 2 / 10 ^ 9 := by
-    have := round9_close r
-    calc |round9 r| = |(round9 r - r) + r| := by ring_nf
-      _ ≤ |round9 r - r| + |r| := abs_add_le _ _
-      _ ≤ A + 1 / 2 / 10 ^ 9 := by linarith
-  have hA0 : 0 ≤ A + 1 / 2 / 10 ^ 9 := (abs_nonneg _).trans h1
+theorem abs_arcsec_le (r A P : ℝ) (hA : |r| ≤ A) (hP : 3.15 / 648000 * A ≤ P) : |arcsec r| ≤ P := by
+  have hA0 : 0 ≤ A := (abs_nonneg _).trans hA
   rw [arcsec_eq, abs_mul, abs_of_pos (by positivity : 0 < Real.pi / 648000)]
-  calc |round9 r| * (Real.pi / 648000) ≤ (A + 1 / 2 / 10 ^ 9) * (3.15 / 648000) := by
-        apply mul_le_mul h1 _ (by positivity) hA0
+  calc |r| * (Real.pi / 648000) ≤ A * (3.15 / 648000) := by
+        apply mul_le_mul hA _ (by positivity) hA0
         have := Real.pi_lt_d2
         apply div_le_div_of_nonneg_right this.le (by norm_num)
     _ ≤ P := by linarith
@@ -484,20 +231,19 @@ theorem abs_arcsec_round9_le (r A P : ℝ) (hA : |r| ≤ A)
 /-- round trip through `conform7`, bound in terms of bounds on the parameters: translations ≤ `T` m,
 scale ≤ `S` (unit 1), rotations ≤ `A` arc-seconds (`P` an upper bound in radians), coordinates ≤ `X` -/
 theorem conform7_round_trip_bound (x y z : ℝ) (p : Transformation)
-    (vcv vcv' : Option (ℝ × ℝ × ℝ × ℝ × ℝ × ℝ × ℝ × ℝ × ℝ)) (h : RotsOK p) (T S A P X : ℝ)
+    (vcv vcv' : Option (ℝ × ℝ × ℝ × ℝ × ℝ × ℝ × ℝ × ℝ × ℝ)) (T S A P X : ℝ)
     (ht : |p.tx| ≤ T ∧ |p.ty| ≤ T ∧ |p.tz| ≤ T) (hs : |p.sc| / 1000000 ≤ S)
-    (hr : |p.rx| ≤ A ∧ |p.ry| ≤ A ∧ |p.rz| ≤ A) (hP : 3.15 / 648000 * (A + 1 / 2 / 10 ^ 9) ≤ P)
+    (hr : |p.rx| ≤ A ∧ |p.ry| ≤ A ∧ |p.rz| ≤ A) (hP : 3.15 / 648000 * A ≤ P)
     (hx : |x| ≤ X ∧ |y| ≤ X ∧ |z| ≤ X) :
     ∃ X' Y' Z' v x' y' z' v', conform7 x y z p vcv = .ok (X', Y', Z', v) ∧
       conform7 X' Y' Z' (Transformation.neg p) vcv' = .ok (x', y', z', v') ∧
       |x' - x| ≤ rtBound T S P X ∧ |y' - y| ≤ rtBound T S P X ∧ |z' - z| ≤ rtBound T S P X := by
-  obtain ⟨X', Y', Z', v, x', y', z', v', h1, h2, h3⟩ := conform7_round_trip x y z p vcv vcv' h
+  obtain ⟨X', Y', Z', v, x', y', z', v', h1, h2, h3⟩ := conform7_round_trip x y z p vcv vcv'
   refine ⟨X', Y', Z', v, x', y', z', v', h1, h2, ?_⟩
   have hs' : |p.sc / 1000000| ≤ S := by
     rwa [abs_div, abs_of_pos (by norm_num : (0 : ℝ) < 1000000)]
   have hρ : |(rho p).1| ≤ P ∧ |(rho p).2.1| ≤ P ∧ |(rho p).2.2| ≤ P :=
-    ⟨abs_arcsec_round9_le _ A P hr.1 hP, abs_arcsec_round9_le _ A P hr.2.1 hP,
-      abs_arcsec_round9_le _ A P hr.2.2 hP⟩
+    ⟨abs_arcsec_le _ A P hr.1 hP, abs_arcsec_le _ A P hr.2.1 hP, abs_arcsec_le _ A P hr.2.2 hP⟩
   have key := round_trip_bound (transl p) (p.sc / 1000000) (rho p) (x, y, z) T S P X ht hs' hρ hx
   rw [← h3] at key
   exact key
@@ -512,14 +258,6 @@ def AgdSet (p : Transformation) : Prop :=
   (|p.tx| ≤ 162 ∧ |p.ty| ≤ 162 ∧ |p.tz| ≤ 162) ∧ |p.sc| ≤ 3 ∧
     (|p.rx| ≤ 0.557 ∧ |p.ry| ≤ 0.557 ∧ |p.rz| ≤ 0.557)
 
-theorem SmallSet.rotsOK {p : Transformation} (h : SmallSet p) : RotsOK p :=
-  ⟨rotOK_of_abs_le (by linarith [h.2.2.1]), rotOK_of_abs_le (by linarith [h.2.2.2.1]),
-    rotOK_of_abs_le (by linarith [h.2.2.2.2])⟩
-
-theorem AgdSet.rotsOK {p : Transformation} (h : AgdSet p) : RotsOK p :=
-  ⟨rotOK_of_abs_le (by linarith [h.2.2.1]), rotOK_of_abs_le (by linarith [h.2.2.2.1]),
-    rotOK_of_abs_le (by linarith [h.2.2.2.2])⟩
-
 /-- for a small set and a point within 6.4·10⁶ m: `p` then `−p` returns within 0.01 mm -/
 theorem round_trip_small (x y z : ℝ) (p : Transformation)
     (vcv vcv' : Option (ℝ × ℝ × ℝ × ℝ × ℝ × ℝ × ℝ × ℝ × ℝ)) (h : SmallSet p)
@@ -528,7 +266,7 @@ theorem round_trip_small (x y z : ℝ) (p : Transformation)
       conform7 X' Y' Z' (Transformation.neg p) vcv' = .ok (x', y', z', v') ∧
       |x' - x| ≤ 1 / 10 ^ 5 ∧ |y' - y| ≤ 1 / 10 ^ 5 ∧ |z' - z| ≤ 1 / 10 ^ 5 := by
   obtain ⟨X', Y', Z', v, x', y', z', v', h1, h2, b1, b2, b3⟩ :=
-    conform7_round_trip_bound x y z p vcv vcv' h.rotsOK 1 (1 / 10 ^ 7) 0.05 (2.5 / 10 ^ 7) 6400000
+    conform7_round_trip_bound x y z p vcv vcv' 1 (1 / 10 ^ 7) 0.05 (2.5 / 10 ^ 7) 6400000
       h.1 (by have := h.2.1; rw [div_le_iff₀ (by norm_num)]; linarith) h.2.2 (by norm_num) hx
   have hb : rtBound 1 (1 / 10 ^ 7) (2.5 / 10 ^ 7) 6400000 ≤ 1 / 10 ^ 5 := by
     unfold rtBound; norm_num
@@ -542,7 +280,7 @@ theorem round_trip_agd (x y z : ℝ) (p : Transformation)
       conform7 X' Y' Z' (Transformation.neg p) vcv' = .ok (x', y', z', v') ∧
       |x' - x| ≤ 2 / 10 ^ 3 ∧ |y' - y| ≤ 2 / 10 ^ 3 ∧ |z' - z| ≤ 2 / 10 ^ 3 := by
   obtain ⟨X', Y', Z', v, x', y', z', v', h1, h2, b1, b2, b3⟩ :=
-    conform7_round_trip_bound x y z p vcv vcv' h.rotsOK 162 (3 / 10 ^ 6) 0.557 (2.8 / 10 ^ 6) 6400000
+    conform7_round_trip_bound x y z p vcv vcv' 162 (3 / 10 ^ 6) 0.557 (2.8 / 10 ^ 6) 6400000
       h.1 (by have := h.2.1; rw [div_le_iff₀ (by norm_num)]; linarith) h.2.2 (by norm_num) hx
   have hb : rtBound 162 (3 / 10 ^ 6) (2.8 / 10 ^ 6) 6400000 ≤ 2 / 10 ^ 3 := by
     unfold rtBound; norm_num
@@ -571,6 +309,132 @@ theorem gda94_gda2020_round_trip (x y z : ℝ)
       conform7 X' Y' Z' gda2020_to_gda94 vcv' = .ok (x', y', z', v') ∧
       |x' - x| ≤ 1 / 10 ^ 5 ∧ |y' - y| ≤ 1 / 10 ^ 5 ∧ |z' - z| ≤ 1 / 10 ^ 5 :=
   round_trip_small x y z gda94_to_gda2020 vcv vcv' gda94_to_gda2020_small hx
+
+/-! ### Catalogue-wide -/
+
+theorem smallSet_neg {p : Transformation} (h : SmallSet p) : SmallSet (Transformation.neg p) := by
+  obtain ⟨⟨a, b, c⟩, d, e, f, g⟩ := h
+  refine ⟨⟨?_, ?_, ?_⟩, ?_, ?_, ?_, ?_⟩
+  · show |-p.tx| ≤ 1; rwa [abs_neg]
+  · show |-p.ty| ≤ 1; rwa [abs_neg]
+  · show |-p.tz| ≤ 1; rwa [abs_neg]
+  · show |-p.sc| ≤ 1 / 10; rwa [abs_neg]
+  · show |-p.rx| ≤ 0.05; rwa [abs_neg]
+  · show |-p.ry| ≤ 0.05; rwa [abs_neg]
+  · show |-p.rz| ≤ 0.05; rwa [abs_neg]
+
+theorem agdSet_neg {p : Transformation} (h : AgdSet p) : AgdSet (Transformation.neg p) := by
+  obtain ⟨⟨a, b, c⟩, d, e, f, g⟩ := h
+  refine ⟨⟨?_, ?_, ?_⟩, ?_, ?_, ?_, ?_⟩
+  · show |-p.tx| ≤ 162; rwa [abs_neg]
+  · show |-p.ty| ≤ 162; rwa [abs_neg]
+  · show |-p.tz| ≤ 162; rwa [abs_neg]
+  · show |-p.sc| ≤ 3; rwa [abs_neg]
+  · show |-p.rx| ≤ 0.557; rwa [abs_neg]
+  · show |-p.ry| ≤ 0.557; rwa [abs_neg]
+  · show |-p.rz| ≤ 0.557; rwa [abs_neg]
+
+theorem smallSet_init (f t : String) (r : Option (Int × Int × Int))
+    (tx ty tz sc rx ry rz d1 d2 d3 d4 d5 d6 d7 : ℝ) (sd : Option TransformationSD)
+    (h : (|tx| ≤ 1 ∧ |ty| ≤ 1 ∧ |tz| ≤ 1) ∧ |sc| ≤ 1 / 10 ∧
+      (|rx| ≤ 0.05 ∧ |ry| ≤ 0.05 ∧ |rz| ≤ 0.05)) :
+    SmallSet (Transformation.init f t r tx ty tz sc rx ry rz d1 d2 d3 d4 d5 d6 d7 sd) := h
+
+theorem agdSet_init (f t : String) (r : Option (Int × Int × Int))
+    (tx ty tz sc rx ry rz d1 d2 d3 d4 d5 d6 d7 : ℝ) (sd : Option TransformationSD)
+    (h : (|tx| ≤ 162 ∧ |ty| ≤ 162 ∧ |tz| ≤ 162) ∧ |sc| ≤ 3 ∧
+      (|rx| ≤ 0.557 ∧ |ry| ≤ 0.557 ∧ |rz| ≤ 0.557)) :
+    AgdSet (Transformation.init f t r tx ty tz sc rx ry rz d1 d2 d3 d4 d5 d6 d7 sd) := h
+
+theorem abs_pround8_div_le {v B : ℝ} (h : |v| ≤ B) : |pround 8 (v / 1000)| ≤ B / 1000 + 5 / 10 ^ 9 := by
+  have h1 := pround_close 8 (v / 1000)
+  have h2 : |v / 1000| ≤ B / 1000 := by
+    rw [abs_div, abs_of_pos (by norm_num : (0 : ℝ) < 1000)]
+    exact div_le_div_of_nonneg_right h (by norm_num)
+  calc |pround 8 (v / 1000)| = |(pround 8 (v / 1000) - v / 1000) + v / 1000| := by ring_nf
+    _ ≤ |pround 8 (v / 1000) - v / 1000| + |v / 1000| := abs_add_le _ _
+    _ ≤ B / 1000 + 5 / 10 ^ 9 := by norm_num at h1 ⊢; linarith
+
+/-- a set given in IERS units (mm, ppb, mas) with `|t| ≤ 999` mm, `|sc| ≤ 99` ppb, `|r| ≤ 49` mas is
+small -/
+theorem smallSet_iers (f t : String) (r : Option (Int × Int × Int))
+    (tx ty tz sc rx ry rz d1 d2 d3 d4 d5 d6 d7 : ℝ)
+    (h : (|tx| ≤ 999 ∧ |ty| ≤ 999 ∧ |tz| ≤ 999) ∧ |sc| ≤ 99 ∧
+      (|rx| ≤ 49 ∧ |ry| ≤ 49 ∧ |rz| ≤ 49)) :
+    SmallSet (iers2trans f t r tx ty tz sc rx ry rz d1 d2 d3 d4 d5 d6 d7) := by
+  obtain ⟨⟨a, b, c⟩, d, e, f', g⟩ := h
+  have e' : |-rx| ≤ 49 := by rwa [abs_neg]
+  have f'' : |-ry| ≤ 49 := by rwa [abs_neg]
+  have g' : |-rz| ≤ 49 := by rwa [abs_neg]
+  refine ⟨⟨?_, ?_, ?_⟩, ?_, ?_, ?_, ?_⟩
+  · exact (abs_pround8_div_le a).trans (by norm_num)
+  · exact (abs_pround8_div_le b).trans (by norm_num)
+  · exact (abs_pround8_div_le c).trans (by norm_num)
+  · exact (abs_pround8_div_le d).trans (by norm_num)
+  · exact (abs_pround8_div_le e').trans (by norm_num)
+  · exact (abs_pround8_div_le f'').trans (by norm_num)
+  · exact (abs_pround8_div_le g').trans (by norm_num)
+
+/-- the seven numeric side conditions on literal parameters -/
+macro "bounds_leaf" : tactic =>
+  `(tactic| (refine ⟨⟨?_, ?_, ?_⟩, ?_, ?_, ?_, ?_⟩ <;> apply abs_le_of_bounds <;>
+      (norm_num [dec_def]; done)))
+
+/-- `SmallSet c` for a catalogue constant `c`: unfold `c` one definition at a time until it is an
+`iers2trans …`, a `Transformation.neg …` or a `Transformation.init …` -/
+syntax "small_tac" : tactic
+macro_rules
+  | `(tactic| small_tac) => `(tactic| first
+      | ((with_reducible apply smallSet_iers); bounds_leaf)
+      | ((with_reducible apply smallSet_neg); small_tac)
+      | ((with_reducible apply smallSet_init); bounds_leaf)
+      | (unfold_arg; small_tac))
+
+syntax "agd_tac" : tactic
+macro_rules
+  | `(tactic| agd_tac) => `(tactic| first
+      | ((with_reducible apply agdSet_neg); agd_tac)
+      | ((with_reducible apply agdSet_init); bounds_leaf)
+      | (unfold_arg; agd_tac))
+
+macro "class_case" : tactic =>
+  `(tactic| first
+    | (refine Or.inl ⟨by decide, ?_⟩; dsimp only; small_tac)
+    | (refine Or.inr ⟨by decide, ?_⟩; dsimp only; agd_tac))
+
+/-- the names of the twelve AGD66/84 ↔ GDA94 sets -/
+def agdNames : List String :=
+  ["agd84_to_gda94", "agd66_to_gda94", "agd66_to_gda94_act", "agd66_to_gda94_tas",
+   "agd66_to_gda94_vicnsw", "agd66_to_gda94_nt", "gda94_to_agd84", "gda94_to_agd66",
+   "gda94_to_agd66_act", "gda94_to_agd66_tas", "gda94_to_agd66_vicnsw", "gda94_to_agd66_nt"]
+
+set_option maxHeartbeats 1000000 in
+/-- every shipped set other than the twelve AGD sets is small; the AGD sets are AGD-sized -/
+theorem catalogue_classes : ∀ e ∈ catalogue_Transformation,
+    (e.1 ∉ agdNames ∧ SmallSet e.2) ∨ (e.1 ∈ agdNames ∧ AgdSet e.2) := by
+  intro e he
+  simp only [catalogue_Transformation, List.mem_cons, List.not_mem_nil, or_false] at he
+  repeat (rcases he with rfl | he; · class_case)
+
+/-- **C06.5c** for every one of the shipped sets and every point within 6.4·10⁶ m, the set followed by
+its negation returns within 0.01 mm — within 2 mm for the twelve AGD66/84 sets -/
+theorem catalogue_round_trip_bound (x y z : ℝ) (vcv vcv' : Option (ℝ × ℝ × ℝ × ℝ × ℝ × ℝ × ℝ × ℝ × ℝ))
+    (hx : |x| ≤ 6400000 ∧ |y| ≤ 6400000 ∧ |z| ≤ 6400000) :
+    ∀ e ∈ catalogue_Transformation,
+      ∃ X' Y' Z' v x' y' z' v', conform7 x y z e.2 vcv = .ok (X', Y', Z', v) ∧
+        conform7 X' Y' Z' (Transformation.neg e.2) vcv' = .ok (x', y', z', v') ∧
+        (|x' - x| ≤ 2 / 10 ^ 3 ∧ |y' - y| ≤ 2 / 10 ^ 3 ∧ |z' - z| ≤ 2 / 10 ^ 3) ∧
+        (e.1 ∉ agdNames → |x' - x| ≤ 1 / 10 ^ 5 ∧ |y' - y| ≤ 1 / 10 ^ 5 ∧ |z' - z| ≤ 1 / 10 ^ 5) := by
+  intro e he
+  rcases catalogue_classes e he with ⟨hn, hs⟩ | ⟨hn, ha⟩
+  · obtain ⟨X', Y', Z', v, x', y', z', v', h1, h2, b1, b2, b3⟩ :=
+      round_trip_small x y z e.2 vcv vcv' hs hx
+    exact ⟨X', Y', Z', v, x', y', z', v', h1, h2,
+      ⟨b1.trans (by norm_num), b2.trans (by norm_num), b3.trans (by norm_num)⟩,
+      fun _ => ⟨b1, b2, b3⟩⟩
+  · obtain ⟨X', Y', Z', v, x', y', z', v', h1, h2, b1, b2, b3⟩ :=
+      round_trip_agd x y z e.2 vcv vcv' ha hx
+    exact ⟨X', Y', Z', v, x', y', z', v', h1, h2, ⟨b1, b2, b3⟩, fun h => absurd hn h⟩
 
 /-! ## Jacobian and covariance propagation -/
 
@@ -669,22 +533,21 @@ theorem JQJt_blocks (A : Matrix (Fin 3) (Fin 3) ℝ) (B : Matrix (Fin 3) (Fin 7)
 /-- **C06.6b** with an input covariance and a set carrying uncertainties, the returned covariance is
 `J·Q·Jᵀ` -/
 theorem vcv_is_JQJt (x y z : ℝ) (p : Transformation) (sd : TransformationSD) (V : T9)
-    (h : RotsOK p) (hsd : p.tf_sd = some sd) :
+    (hsd : p.tf_sd = some sd) :
     ∃ W, conform7 x y z p (some V)
         = .ok ((apply7 p (x, y, z)).1, (apply7 p (x, y, z)).2.1, (apply7 p (x, y, z)).2.2, some W) ∧
       mat33 W = propagated p sd (x, y, z) V := by
-  obtain ⟨hx, hy, hz⟩ := h
   unfold conform7
-  simp only [hp2dec_value _ hx, hp2dec_value _ hy, hp2dec_value _ hz, Except.bind, hsd]
+  simp only [hsd]
   refine ⟨_, congrArg Except.ok (Prod.ext ?_ (Prod.ext ?_ (Prod.ext ?_ rfl))), ?_⟩
   · simp only [apply7, helmert, transl, rho, arcsec, PyR.pyfloat, PyR.radians]; ring
   · simp only [apply7, helmert, transl, rho, arcsec, PyR.pyfloat, PyR.radians]; ring
   · simp only [apply7, helmert, transl, rho, arcsec, PyR.pyfloat, PyR.radians]; ring
   · simp only [propagated, Qp, rho, arcsec, PyR.radians, PyR.pown]
     generalize p.sc / 1000000 = s
-    generalize round9 p.rx / 3600 * (Real.pi / 180) = ρx
-    generalize round9 p.ry / 3600 * (Real.pi / 180) = ρy
-    generalize round9 p.rz / 3600 * (Real.pi / 180) = ρz
+    generalize p.rx / 3600 * (Real.pi / 180) = ρx
+    generalize p.ry / 3600 * (Real.pi / 180) = ρy
+    generalize p.rz / 3600 * (Real.pi / 180) = ρz
     ext i j
     simp only [Matrix.add_apply, AVAt_apply, BDBt_apply]
     fin_cases i <;> fin_cases j <;> simp [mat33, Jx, Jp] <;> ring
@@ -779,7 +642,7 @@ theorem psd9_iff (V : T9) : PSD9 V ↔ (mat33 V).PosSemidef := by
 /-- **C06.7** the returned covariance is symmetric when the input is, and positive semi-definite
 when the input is (for every `w`, `wᵀ(JQJᵀ)w = (Jᵀw)ᵀQ(Jᵀw) ≥ 0`) -/
 theorem vcv_sym_psd (x y z : ℝ) (p : Transformation) (sd : TransformationSD) (V : T9)
-    (h : RotsOK p) (hsd : p.tf_sd = some sd) :
+    (hsd : p.tf_sd = some sd) :
     ∃ W, conform7 x y z p (some V)
         = .ok ((apply7 p (x, y, z)).1, (apply7 p (x, y, z)).2.1, (apply7 p (x, y, z)).2.2, some W) ∧
       (Sym9 V → Sym9 W) ∧ (PSD9 V → PSD9 W) ∧
@@ -787,7 +650,7 @@ theorem vcv_sym_psd (x y z : ℝ) (p : Transformation) (sd : TransformationSD) (
         = (fun u => quad9 V (u 0) (u 1) (u 2))
             ((Jx (p.sc / 1000000) (rho p)).transpose.mulVec ![a, b, c])
           + ∑ k, Qp sd k * ((Jp (p.sc / 1000000) (rho p) (x, y, z)).transpose.mulVec ![a, b, c] k) ^ 2) := by
-  obtain ⟨W, hW, hm⟩ := vcv_is_JQJt x y z p sd V h hsd
+  obtain ⟨W, hW, hm⟩ := vcv_is_JQJt x y z p sd V hsd
   refine ⟨W, hW, ?_, ?_, ?_⟩
   · intro hs
     rw [sym9_iff] at hs ⊢
@@ -800,26 +663,20 @@ theorem vcv_sym_psd (x y z : ℝ) (p : Transformation) (sd : TransformationSD) (
     rw [hm, propagated, quadratic_form_identity, quad9_eq] at e
     simpa using e.symm
 
-/-- **C06.8** whatever `conform7` returns, the covariance slot is filled iff an input covariance
-was supplied and the parameter set carries uncertainties -/
+/-- **C06.8** the covariance slot of the result is filled iff an input covariance was supplied and
+the parameter set carries uncertainties -/
 theorem vcv_returned_iff (x y z : ℝ) (p : Transformation) (vcv : Option T9)
     (r : ℝ × ℝ × ℝ × Option T9) (h : conform7 x y z p vcv = .ok r) :
     r.2.2.2 ≠ none ↔ (vcv ≠ none ∧ p.tf_sd ≠ none) := by
   unfold conform7 at h
-  rcases hp2dec_ok_or_ValueError (p.rx / 10000) with ⟨a, ha⟩ | ha
-  · rcases hp2dec_ok_or_ValueError (p.ry / 10000) with ⟨b, hb⟩ | hb
-    · rcases hp2dec_ok_or_ValueError (p.rz / 10000) with ⟨c, hc⟩ | hc
-      · simp only [ha, hb, hc, Except.bind] at h
-        cases hsd : p.tf_sd <;> cases vcv <;> simp only [hsd] at h <;> cases h <;> simp
-      · simp only [ha, hb, hc, Except.bind] at h; cases h
-    · simp only [ha, hb, Except.bind] at h; cases h
-  · simp only [ha, Except.bind] at h; cases h
+  simp only [] at h
+  cases hsd : p.tf_sd <;> cases vcv <;> simp only [hsd] at h <;> cases h <;> simp
 
-/-- … and for rotations below one arc-minute a result is returned, so: a covariance is returned iff
-`vcv ≠ None` and `trans.tf_sd` is a `TransformationSD` -/
-theorem vcv_some_iff (x y z : ℝ) (p : Transformation) (vcv : Option T9) (h : RotsOK p) :
+/-- … equivalently: a covariance is returned iff `vcv ≠ None` and `trans.tf_sd` is a
+`TransformationSD` -/
+theorem vcv_some_iff (x y z : ℝ) (p : Transformation) (vcv : Option T9) :
     (∃ X Y Z W, conform7 x y z p vcv = .ok (X, Y, Z, some W)) ↔ (vcv ≠ none ∧ p.tf_sd ≠ none) := by
-  obtain ⟨v, hv⟩ := conform7_formula x y z p vcv h
+  obtain ⟨v, hv⟩ := conform7_formula x y z p vcv
   have key := vcv_returned_iff x y z p vcv _ hv
   constructor
   · rintro ⟨X, Y, Z, W, hW⟩
